@@ -390,6 +390,8 @@ class Interp:
             return v.cls
         if isinstance(v, (ClassRec, PyTypeTok)):
             return TYPES["type"]
+        if isinstance(v, ast.AST):
+            return type(v)
         return TYPES["object"]
 
     def isinstance_(self, v, cls):
@@ -426,6 +428,9 @@ class Interp:
         except KeyError:
             if node.id in self.builtins:
                 return self.builtins[node.id]
+            import builtins as _b
+            if hasattr(_b, node.id):
+                raise OutOfReach(f"builtin {node.id} is not modelled")
             raise exc("NameError", f"name '{node.id}' is not defined")
         if isinstance(v, Unbound):
             raise exc("UnboundLocalError", node.id)
